@@ -13,6 +13,7 @@ import (
 	"sort"
 	"strconv"
 	"strings"
+	"time"
 
 	"github.com/awslabs/ar-go-tools/analysis/config"
 	df "github.com/awslabs/ar-go-tools/analysis/dataflow"
@@ -36,7 +37,7 @@ func goEnv() []string {
 // sink site) and the number of runs per case.
 func nativeGT(dir string) (map[[3]int]bool, map[int]int, error) {
 	bin := filepath.Join(dir, "gt.bin")
-	cmd := exec.Command("go", "build", "-o", bin, ".")
+	cmd := exec.Command("go", "build", "-tags", "native", "-o", bin, ".")
 	cmd.Dir, cmd.Env = dir, goEnv()
 	if out, err := cmd.CombinedOutput(); err != nil {
 		return nil, nil, fmt.Errorf("go build: %v\n%s", err, out)
@@ -264,11 +265,19 @@ func runCases(rep *lib.Report) {
 	if lib.Thorough() {
 		nCases, maxNodes, maxBits = 1200, 14, 11
 	}
-	site := 0
 	var cases []*caseInfo
 	var text strings.Builder
-	text.WriteString(casePrelude)
-	for i := 0; i < nCases; i++ {
+	text.WriteString("package main\n")
+	// case0: the recorded F5 input (fixed corpus, evaluated first)
+	if c0 := corpusCase(rep); c0 != nil {
+		cases = append(cases, c0)
+		text.WriteString("\n" + c0.src)
+	} else {
+		cases = append(cases, &caseInfo{id: 0, src: "func case0() {}\n", sites: map[int]bool{}, gt: map[[2]int]bool{}, rept: map[[2]int]bool{}, condKinds: map[int]bool{}})
+		text.WriteString("\nfunc case0() {}\n")
+	}
+	site := 100
+	for i := 1; i <= nCases; i++ {
 		g := &caseGen{r: r, nextSite: &site}
 		before := site
 		s0 := g.site()
@@ -288,15 +297,44 @@ func runCases(rep *lib.Report) {
 		cases = append(cases, ci)
 		text.WriteString("\n" + src)
 	}
-	text.WriteString(renderMain(nCases, maxBits))
-	dir := lib.WorkDir(prop, "cases")
-	lib.WriteProgram(dir, "vcase", map[string]string{"main.go": text.String()})
-	runProgram(rep, r, dir, "vcase", text.String(), cases, "cases")
+	skel, skelSrcs := skeletonFunctions(rep)
+	dir := lib.WorkDir(prop, "prog")
+	nm, sm := renderMains(len(cases), maxBits)
+	lib.WriteProgram(dir, "vcase", map[string]string{
+		"main.go":           text.String(),
+		"skel.go":           skel,
+		"support_native.go": nativeSupport + nm,
+		"support_stub.go":   stubSupport + sm,
+	})
+	runProgram(rep, dir, "vcase", text.String(), cases, skelSrcs)
+}
+
+// corpusCase reads the recorded F5 input (a case function named case0 with sites < 100).
+func corpusCase(rep *lib.Report) *caseInfo {
+	src, err := os.ReadFile(filepath.Join(lib.Root(), "corpus", "findings", "F05_validator_one_path", "case.go.txt"))
+	if err != nil {
+		rep.Notes = append(rep.Notes, "corpus F05 case file missing: "+err.Error())
+		return nil
+	}
+	body := string(src)
+	ci := &caseInfo{id: 0, src: body, sites: map[int]bool{}, gt: map[[2]int]bool{}, rept: map[[2]int]bool{}, condKinds: map[int]bool{cVal: true}, nontriv: true}
+	for _, m := range srcCallRe.FindAllStringSubmatch(body, -1) {
+		k, _ := strconv.Atoi(m[1])
+		ci.sites[k] = true
+	}
+	for _, m := range sinkCallRe.FindAllStringSubmatch(body, -1) {
+		k, _ := strconv.Atoi(m[1])
+		ci.sites[k] = true
+	}
+	return ci
 }
 
 // runProgram: ground truth, real analysis, correspondence and comparison for one program.
-func runProgram(rep *lib.Report, r interface{ Intn(int) int }, dir, pkg, text string, cases []*caseInfo, name string) {
+func runProgram(rep *lib.Report, dir, pkg, text string, cases []*caseInfo, skelSrcs map[string]string) {
+	const name = "prog"
+	tN := time.Now()
 	gt, runs, err := nativeGT(dir)
+	rep.Extra[name+"_native_build_and_run_seconds"] = time.Since(tN).Seconds()
 	if err != nil {
 		rep.Fail("harness-native-"+name, "generated case program does not build/run natively: "+err.Error(), nil, true)
 		return
@@ -317,6 +355,7 @@ func runProgram(rep *lib.Report, r interface{ Intn(int) int }, dir, pkg, text st
 		return
 	}
 	rep.Extra[name+"_analyze_seconds"] = res.AnalyzeSeconds
+	rep.Extra[name+"_load_seconds"] = res.LoadSeconds
 	ts := &res.Config.TaintTrackingProblems[0]
 	srcLine, snkLine := siteLines(text)
 	siteCase := map[int]*caseInfo{}
@@ -349,6 +388,8 @@ func runProgram(rep *lib.Report, r interface{ Intn(int) int }, dir, pkg, text st
 		caseByName[fmt.Sprintf("case%d", ci.id)] = ci
 	}
 	rr := lib.Rand("c02-" + name + "-queries")
+	nSkel := 0
+	defer func() { rep.Extra["skeleton_functions"] = nSkel }()
 	for i, f := range pkgFunctions(res.Prog, pkg) {
 		d := newDump(f, ts)
 		hdr, ok := d.cfgLines(fmt.Sprintf("%s%d", name, i))
@@ -357,13 +398,17 @@ func runProgram(rep *lib.Report, r interface{ Intn(int) int }, dir, pkg, text st
 			continue
 		}
 		ci := caseByName[f.Name()]
-		src := ""
+		src, isSkel := skelSrcs[f.Name()]
 		if ci != nil {
 			src = ci.src
 		}
 		bt.header(hdr)
 		addPathQueries(bt, rep, rr, d, hdr, src)
-		addValueQueries(bt, rep, rr, d, ts, hdr, src)
+		if !isSkel {
+			addValueQueries(bt, rep, rr, d, ts, hdr, src)
+		} else {
+			nSkel++
+		}
 		addEdgeQueries(bt, rep, d, ts, res.Analysis.State.FlowGraph.Summaries[f], hdr, src, ci, m)
 	}
 	if !bt.run(rep, name, m.report) {
@@ -406,7 +451,7 @@ func runProgram(rep *lib.Report, r interface{ Intn(int) int }, dir, pkg, text st
 			continue
 		}
 		sort.Slice(missed, func(i, j int) bool { return missed[i][0]*100000+missed[i][1] < missed[j][0]*100000+missed[j][1] })
-		content := fmt.Sprintf("%s\nmissed (source site, sink site): %v\nground truth: %v\nreported: %v\nvalidator-dropped edges: %d, of which not on every path: %d\nconfig: sources ^source$, sinks ^sink$, sanitizers %s, validators %s\nsupport code: see casePrelude in harness/cmd/c02/gen.go (the whole program is %s/main.go)\n",
+		content := fmt.Sprintf("%s\nmissed (source site, sink site): %v\nground truth: %v\nreported: %v\nvalidator-dropped edges: %d, of which not on every path: %d\nconfig: sources ^source$, sinks ^sink$, sanitizers %s, validators %s\nsupport code: nativeSupport / stubSupport in harness/cmd/c02/gen.go (the whole program is in %s)\n",
 			ci.src, missed, keys2(ci.gt), keys2(ci.rept), ci.dropped, ci.unjust, sanitizerRe, validatorRe, dir)
 		if dom {
 			rep.Fail("e2e-miss:"+ci.src, fmt.Sprintf("a native execution delivers unvalidated, unsanitized source data to a sink (source site, sink site)=%v and the taint analysis does not report it; every validator-dropped edge of the function satisfies must-pass", missed[0]), []byte(content), false)
@@ -429,25 +474,3 @@ func keys2(m map[[2]int]bool) [][2]int {
 	return ks
 }
 
-// runCorpus replays the recorded F5 input: the diamond with the validator on one arm.
-func runCorpus(rep *lib.Report) {
-	src, err := os.ReadFile(filepath.Join(lib.Root(), "corpus", "findings", "F05_validator_one_path", "case.go.txt"))
-	if err != nil {
-		rep.Notes = append(rep.Notes, "corpus F05 case file missing: "+err.Error())
-		return
-	}
-	body := string(src)
-	ci := &caseInfo{id: 0, src: body, sites: map[int]bool{}, gt: map[[2]int]bool{}, rept: map[[2]int]bool{}, condKinds: map[int]bool{cVal: true}, nontriv: true}
-	for _, m := range srcCallRe.FindAllStringSubmatch(body, -1) {
-		k, _ := strconv.Atoi(m[1])
-		ci.sites[k] = true
-	}
-	for _, m := range sinkCallRe.FindAllStringSubmatch(body, -1) {
-		k, _ := strconv.Atoi(m[1])
-		ci.sites[k] = true
-	}
-	text := casePrelude + "\n" + body + renderMain(1, 8)
-	dir := lib.WorkDir(prop, "corpus")
-	lib.WriteProgram(dir, "vcase", map[string]string{"main.go": text})
-	runProgram(rep, nil, dir, "vcase", text, []*caseInfo{ci}, "corpus")
-}
